@@ -382,10 +382,11 @@ func c11Appears(res *Result) {
 func runC11(cases string, res *Result) {
 	c11Appears(res)
 	c11Replaced(res)
-	c11TemplatesThatIncludeThemselves(res)
-	c11ValuesHandedOver(res)
 	c11Unreadable(cases, res)
 	readCases(cases, func(c Case) {
+		if evalAbort {
+			return // a render did not come back: see renderGuarded
+		}
 		stream := c.str("stream")
 		res.Hist["stream:"+stream]++
 		key := c.str("main") + "|" + c.str("ctx") + "|" + fmt.Sprint(c["tpls"]) + fmt.Sprint(c["loader"]) + fmt.Sprint(c["policy"])
@@ -516,6 +517,12 @@ func runC11(cases string, res *Result) {
 			}
 		}
 	})
+	// last: a render that does not end leaves a goroutine behind; the results so far are complete
+	if evalAbort {
+		return
+	}
+	c11ValuesHandedOver(res)
+	c11TemplatesThatIncludeThemselves(res)
 }
 
 // c11Unreadable: `ignore missing` is about templates that do not exist. An entry that exists and cannot be read (here:
